@@ -1682,3 +1682,219 @@ def replay_C19(fi):
     if fi.get("kind") == "cli":
         return _c19_cli(fi["seed"]) is None
     return _c19_location(fi["seed"]) is None
+
+
+# ------------------------------------------------------------------ C09
+def _c09_one(seed):
+    import zoneinfo
+    import astral.sun as sun
+    import astral.moon as moon
+    from astral import Depression, Observer, SunDirection
+    import corr_norm
+    import gens
+    rng = random.Random(seed)
+    o = gens.rand_observer(rng, tuples=False)
+    d = gens.rand_date(rng, wide=False)
+    name = rng.choice(["Europe/London", "Asia/Tokyo", "Pacific/Apia", "America/New_York",
+                       "Asia/Kolkata", "Pacific/Kiritimati", "America/Adak"])
+    tz = zoneinfo.ZoneInfo(name)
+    off = datetime.datetime(d.year, d.month, d.day, 12, tzinfo=tz).utcoffset()
+    fixed = datetime.timezone(off)
+
+    def same(a, b, what, want_zone=None):
+        ra, rb = _try(a), _try(b)
+        if ra[0] != rb[0]:
+            return "%s: %s vs %s" % (what, ra, rb)
+        if ra[0] == "ok" and ra[1] != rb[1]:
+            return "%s: %s vs %s" % (what, ra[1], rb[1])
+        if ra[0] == "ok" and want_zone is not None and ra[1] is not None:
+            for v in (ra[1], rb[1]):
+                if v.utcoffset() != v.astimezone(want_zone).utcoffset():
+                    return "%s: result %s is not expressed in the requested zone" % (what, v.isoformat())
+        return None
+    checks = []
+    for fn in (sun.dawn, sun.dusk):
+        checks.append((lambda fn=fn: fn(o, d, 6, name), lambda fn=fn: fn(o, d, 6, tz), fn.__name__ + " name vs object", tz))
+        checks.append((lambda fn=fn: fn(o, d, Depression.NAUTICAL, tz), lambda fn=fn: fn(o, d, 12, tz),
+                       fn.__name__ + " NAUTICAL vs 12", tz))
+        checks.append((lambda fn=fn: fn(o, d, Depression.ASTRONOMICAL, tz), lambda fn=fn: fn(o, d, 18.0, tz),
+                       fn.__name__ + " ASTRONOMICAL vs 18", tz))
+    for fn in (sun.sunrise, sun.sunset, sun.noon, sun.midnight):
+        checks.append((lambda fn=fn: fn(o, d, name), lambda fn=fn: fn(o, d, tz), fn.__name__ + " name vs object", tz))
+    for fn in (sun.sunrise, sun.sunset):
+        # same offsets on that date (skip DST-change days)
+        if datetime.datetime(d.year, d.month, d.day, 0, tzinfo=tz).utcoffset() == \
+                datetime.datetime(d.year, d.month, d.day, 23, tzinfo=tz).utcoffset() == \
+                (datetime.datetime(d.year, d.month, d.day, 12, tzinfo=tz) - datetime.timedelta(days=1)).utcoffset() == \
+                (datetime.datetime(d.year, d.month, d.day, 12, tzinfo=tz) + datetime.timedelta(days=1)).utcoffset():
+            checks.append((lambda fn=fn: fn(o, d, tz), lambda fn=fn: fn(o, d, fixed),
+                           fn.__name__ + " zone vs fixed offset with the same offset", None))
+        aware = datetime.datetime(d.year, d.month, d.day, rng.randint(0, 23), 15, tzinfo=tz)
+        checks.append((lambda fn=fn: fn(o, aware, datetime.timezone.utc), lambda fn=fn: fn(o, d, tz),
+                       fn.__name__ + " aware datetime as date", tz))
+        naive = datetime.datetime(d.year, d.month, d.day, rng.randint(0, 23), 15)
+        checks.append((lambda fn=fn: fn(o, naive, tz), lambda fn=fn: fn(o, d, tz),
+                       fn.__name__ + " naive datetime as date", tz))
+    for m in (moon.moonrise, moon.moonset):
+        checks.append((lambda m=m: m(o, d, name), lambda m=m: m(o, d, tz), m.__name__ + " name vs object", tz))
+    e = rng.uniform(95, 170)
+    for di in (SunDirection.RISING, SunDirection.SETTING):
+        checks.append((lambda di=di: sun.time_at_elevation(o, e, d, di, tz),
+                       lambda: sun.time_at_elevation(o, 180.0 - e, d, SunDirection.SETTING, tz),
+                       "elevation %.2f (%s) vs setting at 180 - it" % (e, di.name), tz))
+    for a, b, what, wz in checks:
+        r = same(a, b, what, wz)
+        if r:
+            return r
+    # omitted date = today's date in the requested zone
+    now = datetime.datetime(d.year, d.month, d.day, rng.choice([0, 1, 11, 12, 13, 23]), 30,
+                            tzinfo=datetime.timezone.utc)
+    with corr_norm.FrozenClock(now):
+        for fn in (sun.sunrise, sun.noon, sun.dusk):
+            a = _try(lambda: fn(o, None, tzinfo=tz) if fn is not sun.dusk else fn(o, tzinfo=tz))
+            b = _try(lambda: fn(o, now.astimezone(tz).date(), tzinfo=tz))
+            if a != b:
+                return "%s with the date omitted at %s: %s, with today's date in the zone: %s" % (
+                    fn.__name__, now.isoformat(), a, b)
+    lat_s, lon_s = "51°30'N", "0°7'30\"W"
+    o1, o2, o3 = Observer(lat_s, lon_s), Observer(51.5, -0.125), Observer("51.5", "-0.125")
+    if not (o1 == o2 == o3):
+        return "coordinates as DMS / float / numeric string differ: %r %r %r" % (o1, o2, o3)
+    return None
+
+
+def search_C09(rng, deadline, broken):
+    while time.time() < deadline:
+        s = rng.randint(0, 2**31)
+        try:
+            r = _c09_one(s)
+        except Exception as exc:  # noqa: BLE001
+            r = "raised %r" % (exc,)
+        if r:
+            return {"clause": r, "seed": s}
+    return None
+
+
+def replay_C09(fi):
+    return _c09_one(fi["seed"]) is None
+
+
+# ------------------------------------------------------------------ C20
+def _c20_purity():
+    """a fixed call set, in several orders / 16 threads / TZ environments, in fresh
+    interpreters: all answers must be identical"""
+    import subprocess
+    probe = os.path.join(os.path.dirname(os.path.abspath(__file__)), "purity_probe.py")
+    runs = [("listed", 1, None), ("reverse", 1, None), ("shuffle3", 1, None), ("shuffle7", 16, None),
+            ("listed", 1, "Pacific/Kiritimati"), ("reverse", 1, "America/Adak")]
+    results = []
+    for order, threads, tzenv in runs:
+        env = dict(os.environ)
+        if tzenv:
+            env["TZ"] = tzenv
+        p = subprocess.run([sys.executable, probe, order, str(threads)], stdout=subprocess.PIPE,
+                           stderr=subprocess.PIPE, env=env, timeout=600)
+        if p.returncode != 0:
+            return {"clause": "purity probe failed: %s" % p.stderr.decode()[-300:]}
+        results.append(((order, threads, tzenv), json.loads(p.stdout.decode())))
+    base_key, base = results[0]
+    for key, r in results[1:]:
+        for k in base:
+            if r.get(k) != base[k]:
+                return {"clause": "call %s gives %s when the call set runs as %s, but %s when it runs as %s" % (
+                    k, base[k], base_key, r.get(k), key), "call": k}
+    return None
+
+
+def _c20_types(o, d, z):
+    """documented result types / documented ValueErrors only; no NaN, no naive datetime"""
+    import astral.sun as sun
+    import astral.moon as moon
+    from astral import SunDirection
+    tz = z.tzinfo
+    doc = ("Sun never reaches", "Sun is always", "Unable to find", "Moon never")
+
+    def ok_dt(v):
+        return type(v) is datetime.datetime and v.tzinfo is not None
+
+    def chk(name, f, kind):
+        try:
+            v = f()
+        except ValueError as exc:
+            if not str(exc).startswith(doc):
+                return "%s raised ValueError(%r), not a documented message" % (name, str(exc))
+            return None
+        except Exception as exc:  # noqa: BLE001
+            return "%s raised %s(%s); only ValueError is documented" % (name, type(exc).__name__, exc)
+        if kind == "dt" and not ok_dt(v):
+            return "%s returned %r, not an aware datetime" % (name, v)
+        if kind == "optdt" and not (v is None or ok_dt(v)):
+            return "%s returned %r" % (name, v)
+        if kind == "pair" and not (type(v) is tuple and len(v) == 2 and all(ok_dt(x) for x in v)):
+            return "%s returned %r, not a pair of aware datetimes" % (name, v)
+        if kind == "float" and not (type(v) is float and math.isfinite(v)):
+            return "%s returned %r, not a finite float" % (name, v)
+        if kind == "dict" and not (type(v) is dict and sorted(v) == ["dawn", "dusk", "noon", "sunrise", "sunset"]
+                                   and all(ok_dt(x) for x in v.values())):
+            return "%s returned %r" % (name, v)
+        return None
+    before = (o.latitude, o.longitude, o.elevation)
+    dt = datetime.datetime(d.year, d.month, d.day, 12, 30, tzinfo=tz)
+    lst = [
+        ("dawn", lambda: sun.dawn(o, d, 6, tz), "dt"), ("dusk", lambda: sun.dusk(o, d, 170.0, tz), "dt"),
+        ("sunrise", lambda: sun.sunrise(o, d, tz), "dt"), ("sunset", lambda: sun.sunset(o, d, tz), "dt"),
+        ("noon", lambda: sun.noon(o, d, tz), "dt"), ("midnight", lambda: sun.midnight(o, d, tz), "dt"),
+        ("daylight", lambda: sun.daylight(o, d, tz), "pair"), ("night", lambda: sun.night(o, d, tz), "pair"),
+        ("twilight", lambda: sun.twilight(o, d, SunDirection.SETTING, tz), "pair"),
+        ("golden_hour", lambda: sun.golden_hour(o, d, SunDirection.RISING, tz), "pair"),
+        ("blue_hour", lambda: sun.blue_hour(o, d, SunDirection.RISING, tz), "pair"),
+        ("rahukaalam", lambda: sun.rahukaalam(o, d, False, tz), "pair"),
+        ("sun", lambda: sun.sun(o, d, 6, tz), "dict"),
+        ("time_at_elevation", lambda: sun.time_at_elevation(o, 250.0, d, SunDirection.RISING, tz), "dt"),
+        ("time_at_elevation", lambda: sun.time_at_elevation(o, -91.0, d, SunDirection.RISING, tz), "dt"),
+        ("elevation", lambda: sun.elevation(o, dt), "float"), ("azimuth", lambda: sun.azimuth(o, dt), "float"),
+        ("zenith", lambda: sun.zenith(o, dt), "float"),
+        ("moonrise", lambda: moon.moonrise(o, d, tz), "optdt"), ("moonset", lambda: moon.moonset(o, d, tz), "optdt"),
+        ("moon.azimuth", lambda: moon.azimuth(o, dt), "float"), ("moon.elevation", lambda: moon.elevation(o, dt), "float"),
+        ("phase", lambda: moon.phase(d), "float"),
+    ]
+    for name, f, kind in lst:
+        r = chk(name, f, kind)
+        if r:
+            return r
+    if (o.latitude, o.longitude, o.elevation) != before:
+        return "the observer argument was modified"
+    return None
+
+
+def search_C20(rng, deadline, broken):
+    import gens
+    import zones
+    from astral import Observer
+    r = _c20_purity()
+    if r:
+        r["kind"] = "purity"
+        return r
+    lats = [90.0, -90.0, 89.8, -89.8, 0.0, 66.56, 75.0]
+    lons = [180.0, -180.0, 0.0, 179.999, -177.0, -179.0]
+    elevs = [-500.0, 0.0, 5e-324, 1e-200, 1e300, (1e300, 1.0), (1e-200, 0.0), (0.0, 0.0), (3.0, 4.0)]
+    while time.time() < deadline:
+        o = Observer(rng.choice(lats + [gens.rand_lat(rng)]), rng.choice(lons + [gens.rand_lon(rng)]),
+                     rng.choice(elevs + [0.0, 0.0]))
+        y = rng.choice([2, 9998, 1900, 2024, 2100, rng.randint(1900, 2100)])
+        d = datetime.date(y, rng.randint(1, 12), rng.randint(1, 28))
+        z = zones.fixed(rng.choice([0, 60 * rng.randint(-12, 14), 345]))
+        try:
+            r = _c20_types(o, d, z)
+        except Exception as exc:  # noqa: BLE001
+            r = "raised %r" % (exc,)
+        if r:
+            return _descr(o, d, z, clause=r, kind="types")
+    return None
+
+
+def replay_C20(fi):
+    if fi.get("kind") == "purity":
+        return _c20_purity() is None
+    return _c20_types(_obs_from_descr(fi["observer"]), datetime.date.fromisoformat(fi["date"]),
+                      _zone_from_descr(fi["zone"])) is None
